@@ -376,6 +376,9 @@ func TestC14(t *testing.T) {
 		if info.ZeroRate {
 			labels = append(labels, "zero-rate-asset")
 		}
+		if info.V202AtSnapshot {
+			labels = append(labels, "2.0.2-activates-at-a-snapshot-height")
+		}
 		if info.Unrated && info.PrevGraded > 0 {
 			labels = append(labels, "unrated-snapshot-after-graded-block")
 		}
